@@ -1,209 +1,206 @@
-import HappyProofs.C09.PoolWf
+import HappyProofs.C09.PoolSpecA
 /-! The repaired connection-pool model (`reserve = true`) satisfies the executable Spec predicate
 `Pool.judge` — the one that judges implementation transcripts — on its own transcript, for every
-schedule of generator segments the engine can produce (`SchedOk`). -/
+schedule of generator segments the engine can produce (`SchedOk`), with all nine segments:
+abandonment, idle-timeout checks and warm-up included. -/
 namespace HappyModel.C09.Pool
 
-/-- the books the judge keeps are a function of the model state and the queueing times -/
-def bookOf (s : St) (since : List (Nat × Nat)) : Book :=
-  { active := s.active, idle := s.idle, made := s.active.length + s.idle.length, inflight := s.creating,
-    blocked := s.waiters, handed := s.handed, since := since }
+variable (tn idn : Nat) (s : St) (since : List (Nat × Nat)) (slack : Bool)
 
-theorem check_none (max : Nat) (b : Book) (o : Obs)
-    (h1 : b.active.length ≤ max) (h2 : b.made + b.inflight ≤ max) (h3 : o.a = b.active.length)
-    (h4 : o.i = b.idle.length) (h5 : o.n = b.made + b.inflight) (h6 : o.p = b.blocked.length)
-    (h7 : b.active.length + b.idle.length = b.made)
-    (h8 : b.blocked ≠ [] → b.idle = [] ∧ b.made + b.inflight = max) : b.check max o = none := by
-  unfold Book.check
-  rw [if_neg (by omega), if_neg (by omega), if_neg (fun h => h h3), if_neg (fun h => h h4),
-    if_neg (fun h => h.1 h5), if_neg (fun h => h h6), if_neg (fun h => h h7)]
-  rw [if_neg]
-  intro h
-  have hb : b.blocked ≠ [] := by
-    intro e; have := h.1; rw [e] at this; simp at this
-  obtain ⟨hi, ht⟩ := h8 hb
-  rcases h.2 with h2 | h2
-  · rw [hi] at h2; simp at h2
-  · omega
+theorem follows_abandon (id : Nat) (wf : Wf s) (hs : SlackOk s slack) :
+    Follows tn idn s since slack (.abandon id) := by
+  unfold Follows
+  have hco : ConnOk s.idle s.active s.closed s.nextConn := wf.conn
+  by_cases hcr : s.creators.contains id = true
+  · have hst : step s (.abandon id) =
+        ({ s with creating := s.creating - 1, creators := s.creators.erase id,
+                  total := if s.reserve then s.total - 1 else s.total }, .rolledBack) := by
+      rw [step_abandon, if_pos hcr]
+    refine ⟨true, ?_, slack_true _⟩
+    simp only [hst, sinceStep, Book.apply, obsOf, bookOf, hcr]
+    simp
+  · have hcr' : s.creators.contains id = false := by simpa using hcr
+    cases hf : s.handed.find? (·.1 == id) with
+    | some h =>
+      by_cases hact : (!s.active.contains h.2) = true
+      · have hst : step s (.abandon id) = ({ s with handed := s.handed.filter (·.1 != id) }, .nothing) := by
+          rw [step_abandon, if_neg hcr, hf]; simp only [if_pos hact]
+        have hact' : s.active.contains h.2 = false := by simpa using hact
+        refine ⟨slack, ?_, ?_⟩
+        · simp only [hst, sinceStep, Book.apply, obsOf, bookOf, hcr', hf, hact']
+          simp
+        · rw [hst]
+          exact slack_mono hs (fun h => h) (fun h => h) (Nat.le_refl _) rfl
+      · have hact' : s.active.contains h.2 = true := by simpa using hact
+        cases hq : s.waiters with
+        | cons w ws =>
+          have hst : step s (.abandon id) =
+              ({ s with waiters := ws, handed := s.handed.filter (·.1 != id) ++ [(w, h.2)] }, .handoff w) := by
+            rw [step_abandon, if_neg hcr, hf]; simp only [if_neg hact]; rw [giveBack_eq]; simp only [hq]
+          refine ⟨slack, ?_, ?_⟩
+          · simp only [hst, sinceStep, Book.apply, Book.giveBack, obsOf, bookOf, hcr', hf, hact', hq]
+            simp
+          · rw [hst]
+            exact slack_mono hs (fun _ => by rw [hq]; simp) (fun h => h) (Nat.le_refl _) rfl
+        | nil =>
+          have hst : step s (.abandon id) =
+              ({ s with handed := s.handed.filter (·.1 != id), active := s.active.erase h.2,
+                        idle := s.idle ++ [h.2], stamp := setStamp s.stamp h.2 s.now }, .toIdle) := by
+            rw [step_abandon, if_neg hcr, hf]; simp only [if_neg hact]; rw [giveBack_eq]; simp only [hq]
+          have hmem : h.2 ∈ s.active := List.contains_iff_mem.1 hact'
+          have hlen := List.length_erase_of_mem hmem
+          have hpos : 0 < s.active.length := List.length_pos_of_mem hmem
+          refine ⟨slack, ?_, ?_⟩
+          · simp only [hst, sinceStep, Book.apply, Book.giveBack, obsOf, bookOf, hcr', hf, hact', hq,
+              ← hco.activeNodup.erase_eq_filter h.2]
+            simp only [Bool.not_true, Bool.false_eq_true, if_false, List.isEmpty_nil, List.length_append,
+              List.length_cons, List.length_nil, hlen]
+            congr 2; omega
+          · rw [hst]
+            exact slack_nowait _ hq
+    | none =>
+      by_cases hw : s.waiters.contains id = true
+      · have hst : step s (.abandon id) = ({ s with waiters := s.waiters.filter (· != id) }, .dequeued) := by
+          rw [step_abandon, if_neg hcr, hf]; simp only [if_pos hw]
+        refine ⟨slack, ?_, ?_⟩
+        · simp only [hst, sinceStep, Book.apply, obsOf, bookOf, hcr', hf, hw]
+          simp
+        · rw [hst]
+          refine slack_mono hs (fun h hq => h ?_) (fun h => h) (Nat.le_refl _) rfl
+          show s.waiters.filter (· != id) = []
+          rw [hq]; rfl
+      · have hw' : s.waiters.contains id = false := by simpa using hw
+        have hst : step s (.abandon id) = (s, .nothing) := by
+          rw [step_abandon, if_neg hcr, hf]; simp only [if_neg hw]
+        refine ⟨slack, ?_, ?_⟩
+        · simp only [hst, sinceStep, Book.apply, obsOf, bookOf, hcr', hf, hw']
+          simp
+        · rw [hst]; exact hs
 
-theorem check_ok (s : St) (since : List (Nat × Nat)) (t : Nat) (o : Op) (r : Res) (inv : Inv s) :
-    (bookOf s since).check s.max (obsOf t o r s) = none := by
-  have hb := inv.bound
-  have hc := inv.conserve
-  apply check_none
-  · show s.active.length ≤ s.max; omega
-  · show s.active.length + s.idle.length + s.creating ≤ s.max; omega
-  · rfl
-  · rfl
-  · show s.total = s.active.length + s.idle.length + s.creating; omega
-  · rfl
-  · rfl
-  · intro h
-    have := inv.head h
-    exact ⟨this.1, by show s.active.length + s.idle.length + s.creating = s.max; omega⟩
+theorem follows_idleCheck (c e : Nat) (wf : Wf s) (hs : SlackOk s slack) (hdl : e + idn ≤ s.now) :
+    Follows tn idn s since slack (.idleCheck c e) := by
+  unfold Follows
+  have hco : ConnOk s.idle s.active s.closed s.nextConn := wf.conn
+  have hcons := wf.inv.conserve
+  by_cases hcond : (s.idle.contains c && stampOf s.stamp c == some e) = true
+  · by_cases hlt : s.min < s.total
+    · have hst : step s (.idleCheck c e) =
+          ({ s with idle := s.idle.erase c, total := s.total - 1, closed := s.closed ++ [c] }, .closed) := by
+        rw [step_idleCheck, if_pos hcond, if_pos hlt]
+      simp only [Bool.and_eq_true, beq_iff_eq] at hcond
+      have hmem : c ∈ s.idle := List.contains_iff_mem.1 hcond.1
+      have h1 : s.active.contains c = false := not_contains (hco.disj c hmem)
+      have hlen := List.length_erase_of_mem hmem
+      have hpos : 0 < s.idle.length := List.length_pos_of_mem hmem
+      refine ⟨true, ?_, slack_true _⟩
+      simp only [hst, sinceStep, Book.apply, obsOf, bookOf, h1, hcond.1, hcond.2,
+        ← hco.idleNodup.erase_eq_filter c]
+      rw [if_neg (by simp), if_neg (by simp), if_neg (by simp), if_neg (by omega), if_neg (by omega)]
+      simp only [hlen]
+      congr 2; omega
+    · have hst : step s (.idleCheck c e) = (s, .kept) := by
+        rw [step_idleCheck, if_pos hcond, if_neg hlt]
+      refine ⟨slack, ?_, ?_⟩
+      · simp only [hst, sinceStep, Book.apply, obsOf, bookOf]
+      · rw [hst]; exact hs
+  · have hst : step s (.idleCheck c e) = (s, .stale) := by
+      rw [step_idleCheck, if_neg hcond]
+    refine ⟨slack, ?_, ?_⟩
+    · simp only [hst, sinceStep, Book.apply, obsOf, bookOf]
+    · rw [hst]; exact hs
 
-/-- with distinct call ids in `handed`, removing "the entries of call `id`" (model) and removing the
-    one reported pair (judge) are the same -/
-theorem handed_filter_eq {l : List (Nat × Nat)} {id : Nat} {h : Nat × Nat} (hnd : (l.map (·.1)).Nodup)
-    (hf : l.find? (·.1 == id) = some h) :
-    l.filter (·.1 != id) = l.filter (· != (id, h.2)) ∧ l.contains (id, h.2) = true := by
-  have hmem := List.mem_of_find?_eq_some hf
-  have hid : h.1 = id := by simpa using List.find?_some hf
-  have hpair : (id, h.2) = h := by rw [← hid]
-  refine ⟨?_, ?_⟩
-  · apply List.filter_congr
-    intro x hx
-    rw [hpair]
-    by_cases hx1 : x.1 = id
-    · have : x = h := by
-        clear hf hpair
-        induction l with
-        | nil => cases hx
-        | cons y ys ih =>
-          rw [List.map_cons, List.nodup_cons] at hnd
-          rcases List.mem_cons.1 hx with rfl | hx'
-          · rcases List.mem_cons.1 hmem with e | hm'
-            · exact e.symm
-            · exact absurd (List.mem_map.2 ⟨h, hm', by rw [hid, hx1]⟩) hnd.1
-          · rcases List.mem_cons.1 hmem with e | hm'
-            · subst e
-              exact absurd (List.mem_map.2 ⟨x, hx', by rw [hid, hx1]⟩) hnd.1
-            · exact ih hnd.2 hm' hx'
-      rw [this, hid]; simp
-    · have hne : x ≠ h := fun e => hx1 (by rw [e, hid])
-      rw [bne_iff_ne.2 hx1, bne_iff_ne.2 hne]
-  · rw [hpair]; exact List.contains_iff_mem.2 hmem
+theorem follows_warm (wf : Wf s) (hs : SlackOk s slack) : Follows tn idn s since slack .warm := by
+  unfold Follows
+  by_cases hlt : s.total < s.min
+  · have hst : step s .warm =
+        ({ s with creating := s.creating + 1, wflight := s.wflight + 1,
+                  total := if s.reserve then s.total + 1 else s.total }, .creating) := by
+      rw [step_warm, if_pos hlt]
+    refine ⟨slack, ?_, ?_⟩
+    · simp only [hst, sinceStep, Book.apply, obsOf, bookOf]
+    · rw [hst]
+      refine slack_mono hs (fun h => h) (fun h => h) ?_ rfl
+      show s.total ≤ if s.reserve then s.total + 1 else s.total
+      rw [wf.inv.res]; exact Nat.le_succ _
+  · have hst : step s .warm = (s, .done) := by rw [step_warm, if_neg hlt]
+    refine ⟨slack, ?_, ?_⟩
+    · simp only [hst, sinceStep, Book.apply, obsOf, bookOf]
+    · rw [hst]; exact hs
+
+theorem follows_wmade (wf : Wf s) (hnb : (step s .wmade).2 ≠ .bad) : Follows tn idn s since slack .wmade := by
+  unfold Follows
+  have hco : ConnOk s.idle s.active s.closed s.nextConn := wf.conn
+  by_cases hw : s.wflight = 0
+  · have hst : step s .wmade = (s, .bad) := by rw [step_wmade, if_pos hw]
+    rw [hst] at hnb; exact absurd rfl hnb
+  · have hst : step s .wmade =
+        ({ s with creating := s.creating - 1, wflight := s.wflight - 1, nextConn := s.nextConn + 1,
+                  total := if s.reserve then s.total else s.total + 1,
+                  idle := s.idle ++ [s.nextConn + 1], stamp := setStamp s.stamp (s.nextConn + 1) s.now },
+         .conn (s.nextConn + 1)) := by
+      rw [step_wmade, if_neg hw]
+    have hsp := wf.inv.split
+    have h0 : ¬ s.creating = 0 := by omega
+    have h1 : s.active.contains (s.nextConn + 1) = false :=
+      not_contains (fun h => by have := hco.activeLe _ h; omega)
+    have h2 : s.idle.contains (s.nextConn + 1) = false :=
+      not_contains (fun h => by have := hco.idleLe _ h; omega)
+    have h3 : s.closed.contains (s.nextConn + 1) = false :=
+      not_contains (fun h => by have := hco.closedLe _ h; omega)
+    refine ⟨true, ?_, slack_true _⟩
+    simp only [hst, sinceStep, Book.apply, obsOf, bookOf, h1, h2, h3, hw, h0]
+    simp only [decide_false, Bool.or_self, Bool.false_eq_true, or_self, if_false,
+      List.length_append, List.length_cons, List.length_nil]
+    congr 2
 
 /-- one schedule entry: the judge accepts the model's transcript line and its books follow the model -/
-theorem apply_step (timeoutNs : Nat) (s : St) (since : List (Nat × Nat)) (t : Nat) (o : Op) (wf : Wf s)
-    (hok : opOk timeoutNs s since t o = true) :
-    (bookOf s since).apply timeoutNs (obsOf t o (step s o).2 (step s o).1)
-      = .ok (bookOf (step s o).1 (sinceAfter s since t o)) := by
+theorem apply_step (s : St) (since : List (Nat × Nat)) (slack : Bool) (t : Nat) (o : Op) (wf : Wf s)
+    (hs : SlackOk s slack) (hok : opOk tn idn s since t o = true) :
+    ∃ slack', (bookOf s since slack).apply ⟨s.max, tn, s.min, idn⟩ (obsOf t o (stepAt s t o).2 (stepAt s t o).1)
+        = .ok (bookOf (stepAt s t o).1 (sinceAfter s since t o) slack')
+      ∧ SlackOk (stepAt s t o).1 slack' := by
+  have wf' := wf_now t wf
+  have hs' : SlackOk { s with now := t } slack := hs
   simp only [opOk, Bool.and_eq_true, bne_iff_ne, ne_eq] at hok
   obtain ⟨hnb, hop⟩ := hok
   cases o with
-  | acq id =>
-    cases hi : s.idle with
-    | cons c rest =>
-      have hs : step s (.acq id) = ({ s with idle := rest, active := s.active ++ [c] }, .idle c) := by
-        rw [step_acq, hi]
-      have hnd := wf.idleNodup
-      rw [hi] at hnd
-      have hc := List.nodup_cons.1 hnd
-      have hca : c ∉ s.active := wf.disj c (by rw [hi]; simp)
-      have h1 : s.active.contains c = false := by
-        cases hx : s.active.contains c with
-        | false => rfl
-        | true => exact absurd (List.contains_iff_mem.1 hx) hca
-      have h3 : (c :: rest).filter (· != c) = rest := by
-        rw [List.filter_cons]; simp only [bne_self_eq_false, Bool.false_eq_true, if_false]
-        rw [List.filter_eq_self]; intro a ha
-        have : a ≠ c := fun e => hc.1 (e ▸ ha)
-        simpa using this
-      simp only [sinceAfter, hs, Book.apply, obsOf, bookOf, hi, h1]
-      simp only [List.contains_cons, BEq.rfl, Bool.true_or, Bool.not_true, Bool.false_eq_true, if_false, h3]
-      simp only [List.length_append, List.length_cons, List.length_nil]
-      congr 2; omega
-    | nil =>
-      by_cases hlt : s.total < s.max
-      · have hs : step s (.acq id) =
-            ({ s with creating := s.creating + 1, total := if s.reserve then s.total + 1 else s.total }, .creating) := by
-          rw [step_acq, hi]; simp only [if_pos hlt]
-        simp only [sinceAfter, hs, Book.apply, obsOf, bookOf, hi]
-        simp
-      · have hs : step s (.acq id) = ({ s with waiters := s.waiters ++ [id] }, .waiting) := by
-          rw [step_acq, hi]; simp only [if_neg hlt]
-        simp only [sinceAfter, hs, Book.apply, obsOf, bookOf, hi]
-  | made id =>
-    by_cases hcr : s.creating = 0
-    · have hs : step s (.made id) = (s, .bad) := by rw [step_made, if_pos hcr]
-      rw [hs] at hnb; exact absurd rfl hnb
-    · have hs : step s (.made id) =
-          ({ s with creating := s.creating - 1, nextConn := s.nextConn + 1,
-                    total := if s.reserve then s.total else s.total + 1,
-                    active := s.active ++ [s.nextConn + 1] }, .conn (s.nextConn + 1)) := by
-        rw [step_made, if_neg hcr]
-      have h1 : s.active.contains (s.nextConn + 1) = false := by
-        cases hx : s.active.contains (s.nextConn + 1) with
-        | false => rfl
-        | true => have := wf.activeLe _ (List.contains_iff_mem.1 hx); omega
-      have h2 : s.idle.contains (s.nextConn + 1) = false := by
-        cases hx : s.idle.contains (s.nextConn + 1) with
-        | false => rfl
-        | true => have := wf.idleLe _ (List.contains_iff_mem.1 hx); omega
-      simp only [sinceAfter, hs, Book.apply, obsOf, bookOf, h1, h2, if_neg hcr]
-      simp only [Bool.false_eq_true, or_self, if_false, List.length_append, List.length_cons, List.length_nil]
-      congr 2; omega
-  | poll id =>
-    cases hf : s.handed.find? (·.1 == id) with
-    | none =>
-      have hs : step s (.poll id) = (s, .wait) := by rw [step_poll, hf]
-      simp only [sinceAfter, hs, Book.apply, obsOf, bookOf, hf]
-      simp
-    | some h =>
-      have hs : step s (.poll id) = ({ s with handed := s.handed.filter (·.1 != id) }, .got h.2) := by
-        rw [step_poll, hf]
-      have hh := handed_filter_eq wf.handNodup hf
-      simp only [sinceAfter, hs, Book.apply, obsOf, bookOf, hh.2, hh.1]
-      simp
+  | acq id => exact follows_acq tn idn { s with now := t } since slack id wf' hs'
+  | made id => exact follows_made tn idn { s with now := t } since slack id wf' hs' hnb
+  | poll id => exact follows_poll tn idn { s with now := t } since slack id wf' hs'
   | timeout id =>
-    by_cases hb : (s.handed.find? (·.1 == id)).isSome
-    · have hs : step s (.timeout id) = (s, .bad) := by rw [step_timeout, if_pos hb]
-      rw [hs] at hnb; exact absurd rfl hnb
-    · have hs : step s (.timeout id) = ({ s with waiters := s.waiters.filter (· != id) }, .timedOut) := by
-        rw [step_timeout, if_neg hb]
-      simp only [timerOk] at hop
-      cases hsf : since.find? (·.1 == id) with
-      | none => rw [hsf] at hop; cases hop
-      | some st =>
-        rw [hsf] at hop
-        have hle : st.2 + timeoutNs ≤ t := by simpa using hop
-        simp only [sinceAfter, hs, Book.apply, obsOf, bookOf, if_neg hb, hsf]
-        rw [if_neg (by omega)]
-  | rel c =>
-    by_cases hact : (!s.active.contains c) = true
-    · have hs : step s (.rel c) = (s, .unknown) := by rw [step_rel, if_pos hact]
-      have : s.active.contains c = false := by simpa using hact
-      simp only [sinceAfter, hs, Book.apply, obsOf, bookOf, this]
-      simp
-    · have hact' : s.active.contains c = true := by simpa using hact
-      cases hq : s.waiters with
-      | cons w ws =>
-        have hs : step s (.rel c) = ({ s with waiters := ws, handed := s.handed ++ [(w, c)] }, .handoff w) := by
-          rw [step_rel, if_neg hact, hq]
-        simp only [sinceAfter, hs, Book.apply, obsOf, bookOf, hact', hq]
-        simp
-      | nil =>
-        have hs : step s (.rel c) = ({ s with active := s.active.erase c, idle := s.idle ++ [c] }, .toIdle) := by
-          rw [step_rel, if_neg hact, hq]
-        have hmem : c ∈ s.active := List.contains_iff_mem.1 hact'
-        have hlen := List.length_erase_of_mem hmem
-        have hpos : 0 < s.active.length := List.length_pos_of_mem hmem
-        simp only [sinceAfter, hs, Book.apply, obsOf, bookOf, hact', hq, ← wf.activeNodup.erase_eq_filter c]
-        simp only [Bool.not_true, Bool.false_eq_true, if_false, List.isEmpty_nil, List.length_append,
-          List.length_cons, List.length_nil, hlen]
-        congr 2; omega
+    simp only [Bool.and_eq_true, Bool.not_eq_true'] at hop
+    exact follows_timeout tn idn { s with now := t } since slack id wf' hs' hnb hop.1 hop.2
+  | rel c => exact follows_rel tn idn { s with now := t } since slack c wf' hs'
+  | abandon id => exact follows_abandon tn idn { s with now := t } since slack id wf' hs'
+  | idleCheck c e =>
+    have hdl : e + idn ≤ t := by simpa using hop
+    exact follows_idleCheck tn idn { s with now := t } since slack c e wf' hs' hdl
+  | warm => exact follows_warm tn idn { s with now := t } since slack wf' hs'
+  | wmade => exact follows_wmade tn idn { s with now := t } since slack wf' hnb
 
-theorem judge_model (timeoutNs : Nat) (s : St) (since : List (Nat × Nat)) (sched : List (Nat × Op))
-    (wf : Wf s) (hok : SchedOk timeoutNs s since sched = true) :
-    judge s.max timeoutNs (bookOf s since) (obsTrace s sched) = none := by
-  induction sched generalizing s since with
+theorem judge_model (s : St) (since : List (Nat × Nat)) (slack : Bool) (sched : List (Nat × Op))
+    (wf : Wf s) (hs : SlackOk s slack) (hok : SchedOk tn idn s since sched = true) :
+    judge ⟨s.max, tn, s.min, idn⟩ (bookOf s since slack) (obsTrace s sched) = none := by
+  induction sched generalizing s since slack with
   | nil => rfl
   | cons e rest ih =>
     simp only [SchedOk, Bool.and_eq_true] at hok
-    have hap := apply_step timeoutNs s since e.1 e.2 wf hok.1
+    obtain ⟨slack', hap, hs'⟩ := apply_step tn idn s since slack e.1 e.2 wf hs hok.1
     have hfresh : ∀ id, e.2 = .acq id → freshId s id = true := by
       intro id he
       have h := hok.1
       rw [he] at h
       simp only [opOk, Bool.and_eq_true] at h
       exact h.2
-    have wf' := step_wf s e.2 wf hfresh
-    have hck := check_ok (step s e.2).1 (sinceAfter s since e.1 e.2) e.1 e.2 (step s e.2).2 wf'.inv
-    rw [step_max] at hck
+    have wf' := stepAt_wf s e.1 e.2 wf hfresh
+    have hck := check_ok (stepAt s e.1 e.2).1 (sinceAfter s since e.1 e.2) slack' e.1 e.2 (stepAt s e.1 e.2).2
+      wf'.inv hs'
+    have hmax : (stepAt s e.1 e.2).1.max = s.max := step_max _ _
+    have hmin : (stepAt s e.1 e.2).1.min = s.min := step_min _ _
+    rw [hmax] at hck
     simp only [obsTrace, judge, hap, hck]
-    have h := ih (step s e.2).1 _ wf' hok.2
-    rw [step_max] at h
+    have h := ih (stepAt s e.1 e.2).1 _ slack' wf' hs' hok.2
+    rw [hmax, hmin] at h
     exact h
 
 end HappyModel.C09.Pool
@@ -211,70 +208,135 @@ end HappyModel.C09.Pool
 namespace HappyModel.C09
 
 /-- **The repaired pool model satisfies the executable Spec predicate**: on every schedule of
-    generator segments the engine can produce, the judge that judges implementation transcripts
-    accepts the model's own transcript (no over-admission, conservation, FIFO hand-off, nobody
-    blocked while a connection could be had, time-outs only after the time-out). -/
-theorem pool_trace_satisfies_spec (max timeoutNs : Nat) (sched : List (Nat × Pool.Op))
-    (hok : Pool.SchedOk timeoutNs { max := max } [] sched = true) :
-    Pool.judge max timeoutNs {} (Pool.obsTrace { max := max } sched) = none :=
-  Pool.judge_model timeoutNs { max := max } [] sched (Pool.init_wf max) hok
+    generator segments the engine can produce (`Pool.SchedOk`, see `Pool.opOk` for its four clauses),
+    the judge that judges implementation transcripts accepts the model's own transcript — no
+    over-admission, conservation, FIFO hand-off, nobody blocked while a connection could be had (the
+    first waiter helps itself at its next poll), time-outs only after the time-out, an abandoned
+    acquirer leaks neither slot nor connection, idle closes only of a connection idle long enough and
+    above `min_connections`, warm-up within the bound. -/
+theorem pool_trace_satisfies_spec (max timeoutNs min idleNs : Nat) (hmin : min ≤ max)
+    (sched : List (Nat × Pool.Op))
+    (hok : Pool.SchedOk timeoutNs idleNs { max := max, min := min } [] sched = true) :
+    Pool.judge { max := max, timeoutNs := timeoutNs, min := min, idleNs := idleNs } {}
+      (Pool.obsTrace { max := max, min := min } sched) = none :=
+  Pool.judge_model timeoutNs idleNs { max := max, min := min } [] false sched (Pool.init_wf max min hmin)
+    (Pool.slack_nowait _ rfl) hok
 
-/-! ### the statement on a concrete schedule (hypothesis included)
+/-! ### the statement on concrete schedules (hypothesis included)
 
-max 2, time-out 10: calls 0 and 1 start set-ups, calls 2 and 3 arrive during the set-ups and queue;
-call 2 polls in vain, is handed connection 1 at its release and notices at its next poll; call 3 times
-out; a connection goes back to idle and is taken again; a double release is answered `unknown`. -/
-example : Pool.SchedOk 10 { max := 2 } []
+max 2, min 1, time-out 10, idle time-out 5.  Warm-up opens connection 1 and stops; call 0 takes it, call 1
+starts a set-up, calls 2 and 3 queue; call 1 is abandoned (its slot comes back), call 2 — the first
+waiter — helps itself at its next poll and opens connection 2; call 3 polls in vain, is handed
+connection 1 at its release and is abandoned before it notices: the connection goes to the idle list.
+The idle timer of connection 1 closes it (above `min`), the one of connection 2 keeps it (at `min`), a
+timer of an earlier idle session is stale.  Call 6 queues at the maximum and times out. -/
+example : Pool.SchedOk 10 5 { max := 2, min := 1 } []
+      [(0, .warm), (1, .wmade), (1, .warm), (2, .acq 0), (2, .acq 1), (2, .acq 2), (2, .acq 3), (3, .abandon 1),
+       (4, .poll 2), (5, .made 2), (6, .poll 3), (7, .rel 1), (8, .abandon 3), (9, .rel 2), (13, .idleCheck 1 8),
+       (14, .idleCheck 2 9), (15, .idleCheck 1 1), (16, .acq 4), (16, .acq 5), (16, .acq 6), (17, .made 5),
+       (26, .timeout 6), (27, .abandon 9)] = true
+    ∧ Pool.judge { max := 2, timeoutNs := 10, min := 1, idleNs := 5 } {} (Pool.obsTrace { max := 2, min := 1 }
+      [(0, .warm), (1, .wmade), (1, .warm), (2, .acq 0), (2, .acq 1), (2, .acq 2), (2, .acq 3), (3, .abandon 1),
+       (4, .poll 2), (5, .made 2), (6, .poll 3), (7, .rel 1), (8, .abandon 3), (9, .rel 2), (13, .idleCheck 1 8),
+       (14, .idleCheck 2 9), (15, .idleCheck 1 1), (16, .acq 4), (16, .acq 5), (16, .acq 6), (17, .made 5),
+       (26, .timeout 6), (27, .abandon 9)]) = none := by
+  decide
+
+/-- what the model answered in that run -/
+example : (Pool.obsTrace { max := 2, min := 1 }
+      [(0, .warm), (1, .wmade), (1, .warm), (2, .acq 0), (2, .acq 1), (2, .acq 2), (2, .acq 3), (3, .abandon 1),
+       (4, .poll 2), (5, .made 2), (6, .poll 3), (7, .rel 1), (8, .abandon 3), (9, .rel 2), (13, .idleCheck 1 8),
+       (14, .idleCheck 2 9), (15, .idleCheck 1 1), (16, .acq 4), (16, .acq 5), (16, .acq 6), (17, .made 5),
+       (26, .timeout 6), (27, .abandon 9)]).map (·.res)
+    = [.creating, .conn 1, .done, .idle 1, .creating, .waiting, .waiting, .rolledBack, .creating, .conn 2, .wait,
+       .handoff 3, .toIdle, .toIdle, .closed, .kept, .stale, .idle 2, .creating, .waiting, .conn 3, .timedOut,
+       .nothing] := by decide
+
+/-- max 2, min 2: warm-up parks its connection behind the queue; call 2 (second in line) polls in vain,
+    call 1 (first in line) takes the parked connection at its next poll; call 2 is abandoned in the queue -/
+example : Pool.SchedOk 10 5 { max := 2, min := 2 } []
+      [(0, .warm), (0, .acq 0), (0, .acq 1), (0, .acq 2), (1, .wmade), (2, .poll 2), (2, .poll 1), (3, .made 0),
+       (4, .abandon 2), (5, .warm)] = true
+    ∧ Pool.judge { max := 2, timeoutNs := 10, min := 2, idleNs := 5 } {} (Pool.obsTrace { max := 2, min := 2 }
+      [(0, .warm), (0, .acq 0), (0, .acq 1), (0, .acq 2), (1, .wmade), (2, .poll 2), (2, .poll 1), (3, .made 0),
+       (4, .abandon 2), (5, .warm)]) = none
+    ∧ (Pool.obsTrace { max := 2, min := 2 }
+      [(0, .warm), (0, .acq 0), (0, .acq 1), (0, .acq 2), (1, .wmade), (2, .poll 2), (2, .poll 1), (3, .made 0),
+       (4, .abandon 2), (5, .warm)]).map (·.res)
+      = [.creating, .creating, .waiting, .waiting, .conn 1, .wait, .idle 1, .conn 2, .dequeued, .done] := by
+  decide
+
+/-- the classic schedule (max 2, time-out 10, no warm-up, no idle timer): calls 0 and 1 start set-ups,
+    calls 2 and 3 queue; call 2 polls in vain, is handed connection 1 at its release and notices at its next
+    poll; call 3 times out; a connection goes back to idle and is taken again; a double release is answered
+    `unknown` -/
+example : Pool.SchedOk 10 0 { max := 2 } []
       [(0, .acq 0), (0, .acq 1), (0, .acq 2), (0, .acq 3), (1, .made 0), (1, .made 1), (2, .poll 2), (3, .rel 1),
        (4, .poll 2), (10, .timeout 3), (11, .rel 2), (12, .acq 4), (13, .rel 1), (13, .rel 1), (14, .poll 3)] = true
-    ∧ Pool.judge 2 10 {} (Pool.obsTrace { max := 2 }
+    ∧ Pool.judge { max := 2, timeoutNs := 10 } {} (Pool.obsTrace { max := 2 }
       [(0, .acq 0), (0, .acq 1), (0, .acq 2), (0, .acq 3), (1, .made 0), (1, .made 1), (2, .poll 2), (3, .rel 1),
        (4, .poll 2), (10, .timeout 3), (11, .rel 2), (12, .acq 4), (13, .rel 1), (13, .rel 1), (14, .poll 3)]) = none := by
   decide
 
-/-- what the model answered in that run -/
-example : (Pool.obsTrace { max := 2 }
-      [(0, .acq 0), (0, .acq 1), (0, .acq 2), (0, .acq 3), (1, .made 0), (1, .made 1), (2, .poll 2), (3, .rel 1),
-       (4, .poll 2), (10, .timeout 3), (11, .rel 2), (12, .acq 4), (13, .rel 1), (13, .rel 1)]).map (·.res)
-    = [.creating, .creating, .waiting, .waiting, .conn 1, .conn 2, .wait, .handoff 2, .got 1, .timedOut, .toIdle,
-       .idle 2, .toIdle, .unknown] := by decide
-
 /-! ### the judge is not vacuous -/
 
 /-- the transcript of the unrepaired pool (two set-ups started with `max = 1`) is rejected -/
-example : Pool.judge 1 10 {} [⟨0, .acq 0, .creating, 0, 0, 0, 0⟩, ⟨0, .acq 1, .creating, 0, 0, 0, 0⟩]
+example : Pool.judge { max := 1, timeoutNs := 10 } {}
+      [⟨0, .acq 0, .creating, 0, 0, 0, 0⟩, ⟨0, .acq 1, .creating, 0, 0, 0, 0⟩]
     = some "pool/total/exceeds-max" := by decide
 
 /-- a release that hands the connection to the second waiter is rejected -/
-example : Pool.judge 1 10 {} [⟨0, .acq 0, .creating, 0, 0, 1, 0⟩, ⟨1, .made 0, .conn 1, 1, 0, 1, 0⟩,
-      ⟨2, .acq 1, .waiting, 1, 0, 1, 1⟩, ⟨2, .acq 2, .waiting, 1, 0, 1, 2⟩, ⟨3, .rel 1, .handoff 2, 1, 0, 1, 1⟩]
+example : Pool.judge { max := 1, timeoutNs := 10 } {}
+      [⟨0, .acq 0, .creating, 0, 0, 1, 0⟩, ⟨1, .made 0, .conn 1, 1, 0, 1, 0⟩,
+       ⟨2, .acq 1, .waiting, 1, 0, 1, 1⟩, ⟨2, .acq 2, .waiting, 1, 0, 1, 2⟩, ⟨3, .rel 1, .handoff 2, 1, 0, 1, 1⟩]
     = some "pool/fifo/out-of-order" := by decide
+
+/-- an abandoned set-up whose slot does not come back is rejected -/
+example : Pool.judge { max := 1, timeoutNs := 10 } {}
+      [⟨0, .acq 0, .creating, 0, 0, 1, 0⟩, ⟨1, .abandon 0, .nothing, 0, 0, 1, 0⟩]
+    = some "pool/abandon/slot-leaked" := by decide
+
+/-- a first waiter that keeps waiting at its poll although a slot came back is rejected -/
+example : Pool.judge { max := 1, timeoutNs := 10 } {}
+      [⟨0, .acq 0, .creating, 0, 0, 1, 0⟩, ⟨0, .acq 1, .waiting, 0, 0, 1, 1⟩, ⟨1, .abandon 0, .rolledBack, 0, 0, 0, 1⟩,
+       ⟨2, .poll 1, .wait, 0, 0, 0, 1⟩]
+    = some "pool/head/grantable-but-blocked" := by decide
 
 /-! ### each part of `SchedOk` is needed: schedules outside it on which the judge rejects the model -/
 
 /-- (i) a call id re-used while the first call is still pending: both queue as `5`, both are handed a
     connection; the model's poll drops both hand-offs, the judge's only the reported pair -/
-example : Pool.judge 2 10 {} (Pool.obsTrace { max := 2 }
+example : Pool.judge { max := 2, timeoutNs := 10 } {} (Pool.obsTrace { max := 2 }
       [(0, .acq 0), (0, .acq 1), (1, .made 0), (1, .made 1), (2, .acq 5), (2, .acq 5), (3, .rel 1), (3, .rel 2),
        (4, .poll 5), (5, .poll 5)]) = some "pool/grant/handoff-ignored" := by decide
 
-/-- (ii) segments that do not exist: a set-up finishing that never started; a time-out in a call that
-    was already handed a connection -/
-example : Pool.judge 1 10 {} (Pool.obsTrace { max := 1 } [(0, .made 0)]) = some "pool/unknown-observation" := by
-  decide
-example : Pool.judge 1 10 {} (Pool.obsTrace { max := 1 }
+/-- (ii) segments that do not exist: a set-up finishing that never started (for an acquirer, for warm-up);
+    a time-out in a call that was already handed a connection -/
+example : Pool.judge { max := 1, timeoutNs := 10 } {} (Pool.obsTrace { max := 1 } [(0, .made 0)])
+    = some "pool/unknown-observation" := by decide
+example : Pool.judge { max := 1, timeoutNs := 10 } {} (Pool.obsTrace { max := 1 } [(0, .wmade)])
+    = some "pool/unknown-observation" := by decide
+example : Pool.judge { max := 1, timeoutNs := 10 } {} (Pool.obsTrace { max := 1 }
       [(0, .acq 0), (1, .made 0), (2, .acq 1), (3, .rel 1), (20, .timeout 1)]) = some "pool/unknown-observation" := by
   decide
 
-/-- (iii) the timer: a time-out in a call that never queued, and one before the time-out elapsed -/
-example : Pool.judge 1 10 {} (Pool.obsTrace { max := 1 } [(0, .timeout 7)]) = some "pool/timeout/not-waiting" := by
-  decide
-example : Pool.judge 1 10 {} (Pool.obsTrace { max := 1 }
+/-- (iii) the timer: a time-out in a call that never queued, one before the time-out elapsed, and one in
+    the first waiter although a slot came back (the real acquirer polls before it looks at its deadline) -/
+example : Pool.judge { max := 1, timeoutNs := 10 } {} (Pool.obsTrace { max := 1 } [(0, .timeout 7)])
+    = some "pool/timeout/not-waiting" := by decide
+example : Pool.judge { max := 1, timeoutNs := 10 } {} (Pool.obsTrace { max := 1 }
       [(0, .acq 0), (1, .made 0), (2, .acq 1), (5, .timeout 1)]) = some "pool/timeout/early" := by decide
+example : Pool.judge { max := 1, timeoutNs := 10 } {} (Pool.obsTrace { max := 1 }
+      [(0, .acq 0), (0, .acq 1), (1, .abandon 0), (20, .timeout 1)]) = some "pool/timeout/although-grantable" := by
+  decide
+
+/-- (iv) the idle timer: an idle-timeout event delivered before the idle time-out elapsed -/
+example : Pool.judge { max := 1, timeoutNs := 10, idleNs := 5 } {} (Pool.obsTrace { max := 1 }
+      [(0, .acq 0), (1, .made 0), (2, .rel 1), (3, .idleCheck 1 2)]) = some "pool/close/early" := by decide
 
 /-- … while a second time-out line of the same call, a poll of a call that never queued, and a call id
     re-used after its first call is over are all fine -/
-example : Pool.SchedOk 10 { max := 1 } []
+example : Pool.SchedOk 10 0 { max := 1 } []
       [(0, .acq 0), (1, .made 0), (2, .acq 1), (3, .poll 9), (12, .timeout 1), (13, .timeout 1), (14, .acq 1),
        (15, .rel 1), (16, .poll 1)] = true := by decide
 
